@@ -29,3 +29,18 @@ package robase64
 //@   ensures [passes-the-item-and-the-operator-parameters|C18] arg(call.Encoding.EncodeToString, 0) == encoder && arg(call.Encoding.EncodeToString, 1) == v
 //@   ensures [returns-its-result|C18] result == res(call.Encoding.EncodeToString)
 
+// The operators themselves: each is one ro.Map / ro.MapErr / ro.Filter around its lambda.
+
+//@ func Decode
+//@   note the operator is the lift of its own lambda (Decode$1 above) by ro.MapErr and of nothing else
+//@   props C18
+//@   maypanic
+//@   track call.*
+//@   ensures [is-the-lift-of-its-own-lambda|C18] count(call.ANY) == 1 && called(call.MapErr)
+
+//@ func Encode
+//@   note the operator is the lift of its own lambda (Encode$1 above) by ro.Map and of nothing else
+//@   props C18
+//@   maypanic
+//@   track call.*
+//@   ensures [is-the-lift-of-its-own-lambda|C18] count(call.ANY) == 1 && called(call.Map)
